@@ -19,6 +19,11 @@ fn layout_map(lines: &[u32], counts: &[usize], flags: &dyn Fn(usize) -> bool, so
             toks.push(t.clone());
             if dup_at == Some(k) {
                 toks.push(t); // exact consecutive duplicate
+            } else if dup_at == Some(k + 1000) {
+                // a twin at the same position that differs in the range flag only
+                let mut twin = t;
+                twin.range = !twin.range;
+                toks.push(twin);
             }
             k += 1;
         }
@@ -260,13 +265,13 @@ pub fn run(run: &mut Run) -> Finish {
     // duplicate; the flags of the remaining tokens must stay on the right tokens)
     let dmax = tier.pick(4, 5);
     let ndup = (dmax as u64 + 1).pow(2);
-    run.par_slice("consecutive duplicates: lines [0,1], counts 0..=4/5, every duplicated token x every flag subset, all tokens sourced / every second sourceless, four constructions (the fourth gives sourceless twins different left-over values in their unwritten fields)", 11, ndup * 8, |idx, l| {
+    run.par_slice("consecutive duplicates: lines [0,1], counts 0..=4/5, every duplicated token (exact twin, or a twin that differs in the range flag only) x every flag subset, all tokens sourced / every second sourceless, four constructions (the fourth gives sourceless twins different left-over values in their unwritten fields)", 11, ndup * 8, |idx, l| {
         let k = idx & ((1 << 40) - 1);
         let counts = seq_of(k / 8, dmax as u64 + 1, 2);
         let how = [0usize, 1, 2, 5][(k % 4) as usize];
         let sourceless_every = if k % 8 >= 4 { 2 } else { 0 };
         let n: usize = counts.iter().sum();
-        for dup in 0..n {
+        for dup in (0..n).chain((0..n).map(|d| d + 1000)) {
             for mask in 0..(1u64 << n) {
                 let m = layout_map(&[0, 1], &counts, &|t| mask >> t & 1 == 1, sourceless_every, Some(dup));
                 let (v, ran) = check_map(&m, how, false);
